@@ -13,11 +13,10 @@ Full statement (C38): for EVERY operation with EVERY argument on a collection of
 instrumented operation has the contents, return value and exception of the builtin operation
 and its events account exactly for the membership change.
 
-It is false of the code as it stands in four places (all replayed on the real code and listed
+It is false of the code as it stands in three places (all replayed on the real code and listed
 in known_findings.d/C38.json); the theorems below are therefore `_partial` with the exact
 guards, and each excluded region has a `_counterexample`:
 
-* G1 `remove(x)` with `x` absent fires a remove event before raising ValueError;
 * G3 `l[a:b] = <non-iterable>` deletes the slice before raising TypeError;
 * G4 `l[a:b:k] = <iterator>` raises TypeError (needs `len(value)`);
 * G5 `l *= n` fires no events.
@@ -245,13 +244,12 @@ theorem instrumented_list_refines_list_partial (l : List Item) (op : LOp)
 
 /-- where the events are claimed to account exactly for the change -/
 def EventsGuard (l : List Item) : LOp → Prop
-  | .remove x => x ∈ l
   | .imul n => n = 1
   | op => ContentsGuard l op
 
 /-- **instrumented_list_events_account_partial**: old contents + appended = new contents +
-    removed (as multisets) for every operation — outside G1 (`remove` of an absent item),
-    G5 (`*=`) and the regions excluded by `ContentsGuard`. -/
+    removed (as multisets) for every operation — outside G5 (`*=`) and the regions excluded by
+    `ContentsGuard` (`remove` of an absent item fires nothing: G1 is fixed). -/
 theorem instrumented_list_events_account_partial (l : List Item) (op : LOp)
     (hg : EventsGuard l op) :
     Accounts l (iStep l op).events (iStep l op).items := by
@@ -260,9 +258,12 @@ theorem instrumented_list_events_account_partial (l : List Item) (op : LOp)
     show Accounts l [.app x] (l ++ [x])
     unfold Accounts; simp [apps, rems]
   | remove x =>
-    have hx : x ∈ l := hg
-    simp only [iStep, iRemove, pRemove, List.contains_iff_mem.2 hx, if_true]
-    exact acc_erase hx
+    by_cases hx : x ∈ l
+    · simp only [iStep, iRemove, pRemove, List.contains_iff_mem.2 hx, if_true]
+      exact acc_erase hx
+    · have hc : l.contains x = false := by simpa using hx
+      simp only [iStep, iRemove, pRemove, hc, Bool.false_eq_true, if_false]
+      exact acc_refl l
   | insert p x => exact acc_insert l p x
   | setitem i x =>
     simp only [iStep, iSetItem, pGet, pSetItem]
@@ -476,11 +477,11 @@ theorem instrumented_list_history_events_account_partial (ops : List LOp) : ∀ 
 
 /-! ## the excluded regions are real: counterexamples (each replayed on the real code) -/
 
-/-- G1: `[0].remove(1)` raises ValueError on both but the instrumented list has already fired
-    a remove event for an item that was never in the collection -/
-theorem remove_absent_counterexample :
-    ∃ (l : List Item) (x : Item), (iStep l (.remove x)).ret = .err .valueError ∧
-      ¬ Accounts l (iStep l (.remove x)).events (iStep l (.remove x)).items := by
+/-- sensitivity (G1, fixed): the unguarded `remove` of the code before the fix fires a remove
+    event for an item that was never in the collection (`[0].remove(1)`) -/
+theorem remove_unguarded_counterexample :
+    ∃ (l : List Item) (x : Item), (iRemoveUnguarded l x).ret = .err .valueError ∧
+      ¬ Accounts l (iRemoveUnguarded l x).events (iRemoveUnguarded l x).items := by
   refine ⟨[0], 1, by decide, ?_⟩
   intro h
   have := h.length_eq
@@ -554,7 +555,7 @@ example : (iStep [0, 1, 2] (.setslice ⟨some 1, some 3, none⟩ ⟨.self, []⟩
 example : AllGuarded [0, 1] [.append 2, .setslice ⟨some 5, some 1, none⟩ ⟨.iter, [3]⟩, .pop (-1)] := by
   refine ⟨trivial, ?_, trivial, trivial⟩
   simp [ContentsGuard, sliceIndices, adjust, pStep]
-example : EventsGuard [0, 1] (.remove 1) := by simp [EventsGuard]
+example : EventsGuard [0, 1] (.remove 7) := by simp [EventsGuard, ContentsGuard]
 
 /-! # instrumented set -/
 open SaVerif.PySeq.SetI
@@ -805,6 +806,126 @@ example : (sStep [1, 2, 3] (.symDiffUpdate ⟨.sized, [3, 4, 4]⟩)) = ⟨[1, 2,
   decide
 example : sPlain [1, 2, 3] (.symDiffUpdate ⟨.sized, [3, 4, 4]⟩) = some [1, 2, 4] := by decide
 
+/-! ## set histories -/
+
+def SameSet (a b : List Item) : Prop := ∀ x, x ∈ a ↔ x ∈ b
+
+theorem contains_congr {a b : List Item} (h : SameSet a b) (x : Item) : a.contains x = b.contains x := by
+  rw [Bool.eq_iff_iff, List.contains_iff_mem, List.contains_iff_mem]; exact h x
+
+/-- the builtin set operation only depends on the members, and keeps a set a set -/
+theorem sPlain_congr {s t : List Item} (hs : s.Nodup) (ht : t.Nodup) (h : SameSet s t) (op : SOp) :
+    (sPlain s op = none ↔ sPlain t op = none) ∧
+    ∀ a b, sPlain s op = some a → sPlain t op = some b → SameSet a b ∧ b.Nodup := by
+  have valcase : ∀ (v : Val) (f : List Item → List Item → List Item) (selfS selfT : List Item),
+      (∀ y, SameSet (f s y) (f t y)) → (∀ y, (f t y).Nodup) → SameSet selfS selfT → selfT.Nodup →
+      ((match v.kind with | .nonIter => (none : Option (List Item)) | .self => some selfS | _ => some (f s v.elems)) = none ↔
+       (match v.kind with | .nonIter => (none : Option (List Item)) | .self => some selfT | _ => some (f t v.elems)) = none) ∧
+      ∀ a b, (match v.kind with | .nonIter => (none : Option (List Item)) | .self => some selfS | _ => some (f s v.elems)) = some a →
+        (match v.kind with | .nonIter => (none : Option (List Item)) | .self => some selfT | _ => some (f t v.elems)) = some b →
+        SameSet a b ∧ b.Nodup := by
+    intro v f selfS selfT hf hn hself hselfn
+    cases v.kind <;> simp only
+    · exact ⟨by simp, fun a b ha hb => by cases ha; cases hb; exact ⟨hf _, hn _⟩⟩
+    · exact ⟨by simp, fun a b ha hb => by cases ha; cases hb; exact ⟨hf _, hn _⟩⟩
+    · exact ⟨by simp, fun a b ha hb => by cases ha; cases hb; exact ⟨hself, hselfn⟩⟩
+    · exact ⟨by simp, fun a b ha _ => by cases ha⟩
+  have eraseS : ∀ x, SameSet (s.erase x) (t.erase x) := by
+    intro x y; rw [hs.mem_erase_iff, ht.mem_erase_iff, h y]
+  have hU := fun v => valcase v sUnion s t (fun y x => by rw [mem_sUnion, mem_sUnion, h x])
+    (fun y => nodup_sUnion ht y) h ht
+  have hD := fun v => valcase v sDiff [] [] (fun y x => by rw [mem_sDiff, mem_sDiff, h x])
+    (fun y => nodup_filter' _ ht) (fun _ => Iff.rfl) List.nodup_nil
+  have hI := fun v => valcase v sInter s t (fun y x => by rw [mem_sInter, mem_sInter, h x])
+    (fun y => nodup_filter' _ ht) h ht
+  have hX := fun v => valcase v sSymDiff [] [] (fun y x => by rw [mem_sSymDiff, mem_sSymDiff, h x])
+    (fun y => nodup_sSymDiff ht y) (fun _ => Iff.rfl) List.nodup_nil
+  cases op with
+  | add x =>
+    refine ⟨by simp [sPlain], ?_⟩
+    intro a b ha hb
+    simp only [sPlain, Option.some.injEq] at ha hb
+    subst ha; subst hb
+    exact ⟨fun y => by rw [mem_sAdd, mem_sAdd, h y], nodup_sAdd ht⟩
+  | discard x =>
+    refine ⟨by simp [sPlain], ?_⟩
+    intro a b ha hb
+    simp only [sPlain, Option.some.injEq] at ha hb
+    subst ha; subst hb
+    exact ⟨eraseS x, ht.erase x⟩
+  | remove x =>
+    simp only [sPlain, contains_congr h x]
+    by_cases hx : t.contains x = true
+    · simp only [hx, if_true]
+      exact ⟨by simp, fun a b ha hb => by cases ha; cases hb; exact ⟨eraseS x, ht.erase x⟩⟩
+    · simp only [hx]
+      exact ⟨by simp, fun a b ha _ => by simp at ha⟩
+  | pop p =>
+    cases p with
+    | none => exact ⟨by simp [sPlain], fun a b ha _ => by simp [sPlain] at ha⟩
+    | some x =>
+      simp only [sPlain, contains_congr h x]
+      by_cases hx : t.contains x = true
+      · simp only [hx, if_true]
+        exact ⟨by simp, fun a b ha hb => by cases ha; cases hb; exact ⟨eraseS x, ht.erase x⟩⟩
+      · simp only [hx]
+        exact ⟨by simp, fun a b ha _ => by simp at ha⟩
+  | clear =>
+    exact ⟨by simp [sPlain], fun a b ha hb => by
+      simp only [sPlain, Option.some.injEq] at ha hb; subst ha; subst hb
+      exact ⟨fun _ => Iff.rfl, List.nodup_nil⟩⟩
+  | update v => exact hU v
+  | diffUpdate v => exact hD v
+  | interUpdate v => exact hI v
+  | symDiffUpdate v => exact hX v
+  | ior strict v =>
+    cases strict with
+    | false => exact ⟨by simp [sPlain], fun a b ha _ => by simp [sPlain] at ha⟩
+    | true => exact hU v
+  | isub strict v =>
+    cases strict with
+    | false => exact ⟨by simp [sPlain], fun a b ha _ => by simp [sPlain] at ha⟩
+    | true => exact hD v
+  | iand strict v =>
+    cases strict with
+    | false => exact ⟨by simp [sPlain], fun a b ha _ => by simp [sPlain] at ha⟩
+    | true => exact hI v
+  | ixor strict v =>
+    cases strict with
+    | false => exact ⟨by simp [sPlain], fun a b ha _ => by simp [sPlain] at ha⟩
+    | true => exact hX v
+
+def sPlainRun (s : List Item) : List SOp → List Item
+  | [] => s
+  | op :: ops => sPlainRun ((sPlain s op).getD s) ops
+
+def sFinal (s : List Item) (ops : List SOp) : List Item := ops.foldl (fun s op => (sStep s op).items) s
+
+/-- **instrumented_set_history_refines_set**: after ANY operation history the instrumented set
+    has exactly the members of the builtin set driven by the same history -/
+theorem instrumented_set_history_refines_set (ops : List SOp) : ∀ (s t : List Item),
+    s.Nodup → t.Nodup → SameSet s t → SameSet (sFinal s ops) (sPlainRun t ops) := by
+  induction ops with
+  | nil => intro s t _ _ h; exact h
+  | cons op ops ih =>
+    intro s t hs ht h
+    obtain ⟨hnone, hsome⟩ := sPlain_congr hs ht h op
+    show SameSet (sFinal (sStep s op).items ops) (sPlainRun ((sPlain t op).getD t) ops)
+    cases hp : sPlain s op with
+    | none =>
+      have hq := hnone.1 hp
+      obtain ⟨h1, _, _⟩ := instrumented_set_raises_like_set s op hp
+      rw [hq, h1]
+      exact ih s t hs ht h
+    | some a =>
+      have ok := instrumented_set_refines_set s hs op a hp
+      cases hq : sPlain t op with
+      | none => rw [hnone.2 hq] at hp; cases hp
+      | some b =>
+        obtain ⟨hab, hb⟩ := hsome a b hp hq
+        simp only [Option.getD_some]
+        exact ih _ _ ok.nodup hb (fun x => (ok.members x).trans (hab x))
+
 /-! # instrumented dict (InstrumentedDict / KeyFuncDict) -/
 
 /-- the facts proved about one instrumented-dict operation that succeeds on the builtin dict -/
@@ -1047,6 +1168,42 @@ theorem instrumented_dict_raises_like_dict (d : Dict) (op : DOp) (h : dPlain d o
       · have hne : (cur != v) = true := by simp [bne, hc]
         simp only [dStep, DictI.kremove, hg, hne, if_true]
         first | exact ⟨rfl, rfl, _, rfl⟩ | exact ⟨trivial, trivial, _, rfl⟩ | simp
+
+/-- the builtin dict along a history: an operation that raises leaves the dict unchanged -/
+def dPlainRun (d : Dict) : List DOp → Dict
+  | [] => d
+  | op :: ops => dPlainRun ((dPlain d op).getD d) ops
+
+def dFinal (d : Dict) (ops : List DOp) : Dict := ops.foldl (fun d op => (dStep d op).items) d
+
+def dAllEvents (d : Dict) : List DOp → List Event
+  | [] => []
+  | op :: ops => (dStep d op).events ++ dAllEvents (dStep d op).items ops
+
+/-- **instrumented_dict_history_refines_dict**: after ANY operation history the instrumented
+    dict holds exactly the items (and key order) of the builtin dict driven by the same
+    history, still one entry per key, and all events fired along the way account for the
+    values that entered and left (induction over the history) -/
+theorem instrumented_dict_history_refines_dict (ops : List DOp) : ∀ (d : Dict), DWf d →
+    dFinal d ops = dPlainRun d ops ∧ DWf (dFinal d ops) ∧
+    Accounts (dVals d) (dAllEvents d ops) (dVals (dFinal d ops)) := by
+  induction ops with
+  | nil => intro d hw; exact ⟨rfl, hw, acc_refl _⟩
+  | cons op ops ih =>
+    intro d hw
+    cases hp : dPlain d op with
+    | none =>
+      obtain ⟨h1, h2, _⟩ := instrumented_dict_raises_like_dict d op hp
+      have := ih d hw
+      simp only [dFinal, List.foldl_cons, dPlainRun, dAllEvents, hp, Option.getD_none, h1, h2,
+        List.nil_append] at this ⊢
+      exact this
+    | some d' =>
+      have ok := instrumented_dict_refines_dict d hw op d' hp
+      obtain ⟨a, b, c⟩ := ih d' ok.wf
+      simp only [dFinal, List.foldl_cons, dPlainRun, dAllEvents, hp, Option.getD_some, ok.items] at a b c ⊢
+      refine ⟨a, b, ?_⟩
+      exact acc_trans ok.acc c
 
 /-- sensitivity: the unwrapped `dict.__ior__` of the code before the G8 fix changes the
     contents without any event -/
